@@ -1,6 +1,8 @@
 import Model.Pool
 import Model.Pipe
 import Proofs.C17Pipe
+import Proofs.C17Deb
+import Proofs.C17Reg
 /-!
 # C17 — pools stay within bounds; a session always closes (property theorems)
 
@@ -191,14 +193,21 @@ theorem C17_pipe_late_completion_closed (c : Cfg) (hpos : 0 < c.size) (as : List
      refine ⟨h0, rfl, ?_⟩
      simp [h0] at hg ⊢; omega)
 
+/- FULL PROPERTY (not a theorem of the code that exists): after Session.Close, once every connect in flight has
+   returned, no socket is open and no pool holds a connection, for every schedule before, around and after the Close.
+   The unchanged code violates it when an addHost (UP event, ring refresh, reconnect ticker) runs after Session.Close's
+   policyConnPool.Close() and before its s.cancel(): addHost does not know the session is closing, registers a new
+   pool and fills it; nothing closes that pool (`C17_cex_addhost_in_close_window`). -/
 open Pipe C17Pipe in
 /-- after Session.Close, once every connect in flight has returned, no socket is open and no pool holds a
-    connection — for every schedule before, around and after the Close -/
-theorem C17_pipe_session_close_leaves_nothing (c : Cfg) (hpos : 0 < c.size) (as : List Act) (h : Host)
-    (hr : (Host.init c).run as = some h) (hsc : h.sessClosed = true) (hq : ∀ p ∈ h.pools, p.att = []) :
+    connection — for every schedule before, around and after the Close in which no addHost ran between Session.Close's
+    policyConnPool.Close() and its s.cancel() -/
+theorem C17_pipe_session_close_leaves_nothing_partial (c : Cfg) (hpos : 0 < c.size) (as : List Act) (h : Host)
+    (hr : (Host.init c).run as = some h) (hsc : h.sessClosed = true) (hla : h.lateAdd = false)
+    (hq : ∀ p ∈ h.pools, p.att = []) :
     h.opened = 0 ∧ h.closedConns = 0 ∧ h.cur = none := by
   have ⟨hi, _⟩ := hinv_run as _ h (hinv_init c hpos) hr
-  have hcur := hi.sess hsc
+  have hcur := hi.sess hsc hla
   have hall : ∀ p ∈ h.pools, p.closed = true ∧ p.conns = [] ∧ p.opened = 0 := by
     intro p hp
     rcases mem_pools h p hp with hc | hold
@@ -218,6 +227,17 @@ theorem C17_pipe_session_close_leaves_nothing (c : Cfg) (hpos : 0 < c.size) (as 
     intro x hx
     obtain ⟨p, hp, rfl⟩ := List.mem_map.mp hx
     simp [(hall p hp).2.1]
+
+/-- counterexample to the full property on the code that exists: size 2; the pool is full; Session.Close closes the
+    pools; an addHost arrives before the session context is cancelled: a new pool is registered and filled (attempts 3
+    and 4 complete); the context is cancelled — Session.Close has returned, every connect has returned, and two
+    connections are open in a pool that nothing will close -/
+theorem C17_cex_addhost_in_close_window :
+    ∃ h, (Pipe.Host.init ⟨2, false, 0⟩).run
+      [.ok 2, .ok 2, .ok 2, .stop, .sclose, .up, .ok 3, .ok 3, .ok 3, .ok 4, .ok 4, .ok 4, .stop, .scancel] = some h ∧
+      h.sessClosed = true ∧ h.cancelled = true ∧ h.lateAdd = true ∧ (∀ p ∈ h.pools, p.att = []) ∧
+      h.opened = 2 ∧ h.cur.map (·.conns) = some [3, 4] ∧ h.cur.map (·.closed) = some false := by
+  refine ⟨_, rfl, ?_, ?_, ?_, ?_, ?_, ?_, ?_⟩ <;> decide
 
 /-- non-vacuity, and the schedule of the seeded change: size 2, keyspace configured; the second connection is
     dialled, gets SUPPORTED and READY and waits for the USE reply; the host is removed; the reply arrives -/
@@ -370,5 +390,219 @@ theorem C17_hs_buffered_plain_send_blocks :
 example : ∃ s, Hs.run Hs.St.init [.ctxFire, .cLeave, .cRet, .wRet, .wEsc, .rErr, .rEsc] = some s ∧
     s.r = .done ∧ s.w = .done := by
   refine ⟨_, rfl, ?_, ?_⟩ <;> decide
+
+end C17
+
+namespace C17
+/-! ### refreshDebouncer with its broadcaster: every refreshNow() waiter is released
+
+FULL PROPERTY (not a theorem of the code that exists): for every schedule of refreshNow / debounce / stop calls and
+flusher steps, once stop() has been called every waiter ever handed a channel by refreshNow() is released (gets the
+result of a refresh or a closed channel) after at most three further steps of the flusher — so no goroutine sitting in
+Session.refreshRing outlives Session.Close.
+
+The unchanged code violates it for a refreshNow() that runs AFTER the flusher has returned (`late`): refreshNow does not
+look at `stopped`, creates a broadcaster nobody will ever stop and hands out a channel that is never written nor closed
+(`C17_cex_waiter_after_exit`). With that excluded it is a theorem (`C17_waiters_released_partial`); for the proposed
+repair (refreshNow returns a closed channel once `stopped`) it holds without the exclusion (`C17_waiters_released_fixed`). -/
+
+open Pool C17Deb in
+/-- **every waiter registered before the flusher returned is released**: in every state reachable under any schedule
+    (0.. waiters queued before / while a refresh runs, stop at any point, the select taking any ready case), once
+    `stopped` is set the flusher has at most three steps of its own left (refreshFn returns; the select takes the closed
+    quit channel; the critical section) after which it has exited and EVERY waiter registered so far is released —
+    provided no refreshNow() ran after the flusher had returned -/
+theorem C17_waiters_released_partial (as : List WAct) (d : WDeb) (hr : wrun WDeb.init as = some d)
+    (hs : d.stopped = true) (hl : d.late = false) :
+    ∃ bs d', bs.length ≤ 3 ∧ (∀ b ∈ bs, b = .wake .quit ∨ b = .lock ∨ b = .refreshDone) ∧
+      wrun d bs = some d' ∧ d'.f = .exited ∧ ∀ w, w < d.nextW → d'.released w := by
+  have inv := winv_run false as _ d (winv_init false) hr
+  exact drain false d inv hs (fun he => inv.noPend he (Or.inr hl))
+
+open Pool C17Deb in
+/-- the same for the proposed repair of refreshNow (`if d.stopped { return a closed channel }`), for ALL schedules -/
+theorem C17_waiters_released_fixed (as : List WAct) (d : WDeb) (hr : wrunG true WDeb.init as = some d)
+    (hs : d.stopped = true) :
+    ∃ bs d', bs.length ≤ 3 ∧ (∀ b ∈ bs, b = .wake .quit ∨ b = .lock ∨ b = .refreshDone) ∧
+      wrunG true d bs = some d' ∧ d'.f = .exited ∧ ∀ w, w < d.nextW → d'.released w := by
+  have inv := winv_run true as _ d (winv_init true) hr
+  exact drain true d inv hs (fun he => inv.noPend he (Or.inl rfl))
+
+open Pool C17Deb in
+/-- a released waiter stays released along every continuation (both variants of refreshNow) -/
+theorem C17_released_stable (fixed : Bool) : ∀ (bs : List WAct) (d d' : WDeb) (w : Nat),
+    wrunG fixed d bs = some d' → d.released w → d'.released w
+  | [], d, d', w, hr, h => by simp [wrunG] at hr; subst hr; exact h
+  | b :: bs, d, d', w, hr, h => by
+    simp only [wrunG] at hr
+    split at hr
+    · rename_i d1 hs1
+      have m := released_mono fixed d d1 b hs1
+      exact C17_released_stable fixed bs d1 d' w hr (by
+        rcases h with a | a
+        · exact Or.inl (m.1 w a)
+        · exact Or.inr (m.2.1 w a))
+    · simp at hr
+
+open Pool in
+/-- non-vacuity, and the schedule of the seeded change on the code that exists: a refresh is running (waiter 0), a
+    second one is asked for (waiter 1), stop(), the running refresh returns; whichever ready case the select takes,
+    both waiters end up released -/
+example : ∃ d, wrun WDeb.init [.refreshNow, .wake .now, .lock, .refreshNow, .stop, .refreshDone, .wake .quit, .lock] = some d ∧
+    d.served = [0] ∧ d.shut = [1] ∧ d.f = .exited := by
+  refine ⟨_, rfl, ?_, ?_, ?_⟩ <;> decide
+
+example : ∃ d, Pool.wrun Pool.WDeb.init [.refreshNow, .wake .now, .lock, .refreshNow, .stop, .refreshDone, .wake .now, .lock] = some d ∧
+    d.served = [0] ∧ d.shut = [1] ∧ d.f = .exited := by
+  refine ⟨_, rfl, ?_, ?_, ?_⟩ <;> decide
+
+open Pool in
+/-- counterexample to the full property on the code that exists: stop(); the flusher returns; refreshNow() — waiter 0
+    is never released, along EVERY continuation -/
+theorem C17_cex_waiter_after_exit :
+    ∃ d, wrun WDeb.init [.stop, .wake .quit, .lock, .refreshNow] = some d ∧ d.stopped = true ∧ d.f = .exited ∧
+      d.late = true ∧ 0 < d.nextW ∧ ∀ (bs : List WAct) (d' : WDeb), wrun d bs = some d' → ¬ d'.released 0 := by
+  refine ⟨_, rfl, by decide, by decide, by decide, by decide, ?_⟩
+  have key : ∀ (bs : List WAct) (t t' : WDeb), t.f = .exited → 0 ∈ ls t.pend → 0 ∉ t.served → 0 ∉ t.shut →
+      wrun t bs = some t' → ¬ t'.released 0 := by
+    intro bs
+    induction bs with
+    | nil =>
+      intro t t' _ _ h3 h4 hr
+      simp [wrun, wrunG] at hr; subst hr
+      intro h; rcases h with a | a
+      · exact h3 a
+      · exact h4 a
+    | cons b bs ih =>
+      intro t t' h1 h2 h3 h4 hr
+      simp only [wrun, wrunG] at hr
+      split at hr
+      · rename_i t1 ht1
+        have : t1.f = .exited ∧ 0 ∈ ls t1.pend ∧ 0 ∉ t1.served ∧ 0 ∉ t1.shut := by
+          cases b with
+          | refreshNow =>
+            simp only [wstepG, wRefreshNow, Bool.false_and, Bool.false_eq_true, if_false] at ht1
+            injection ht1 with ht1; subst ht1
+            split
+            · rename_i hp; simp [hp, ls] at h2
+            · rename_i l hp
+              simp only [hp, ls, Option.getD_some] at h2
+              exact ⟨h1, by simp [ls, h2], h3, h4⟩
+          | debounce =>
+            simp only [wstepG] at ht1
+            split at ht1 <;> (injection ht1 with ht1; subst ht1; exact ⟨h1, h2, h3, h4⟩)
+          | wake x => simp [wstepG, h1] at ht1
+          | lock => simp [wstepG, h1] at ht1
+          | refreshDone => simp [wstepG, h1] at ht1
+          | stop =>
+            simp only [wstepG] at ht1; injection ht1 with ht1; subst ht1; exact ⟨h1, h2, h3, h4⟩
+        exact ih t1 t' this.1 this.2.1 this.2.2.1 this.2.2.2 hr
+      · simp at hr
+  intro bs d' hr
+  exact key bs _ d' (by decide) (by decide) (by decide) (by decide) hr
+
+open Pool in
+/-- What the check is there to catch (the family "the flusher leaves through its quit case without stopping the
+    pending broadcaster"): a refresh is running, a second one is asked for (waiter 1, registered BEFORE stop), stop(),
+    the refresh returns, the select takes the quit case — waiter 1 is never released, along every continuation. -/
+theorem C17_quit_return_strands_waiter :
+    ∃ d, wrunQuitReturn WDeb.init [.refreshNow, .wake .now, .lock, .refreshNow, .stop, .refreshDone, .wake .quit] = some d ∧
+      d.stopped = true ∧ d.f = .exited ∧ d.late = false ∧ 1 < d.nextW ∧
+      ∀ (bs : List WAct) (d' : WDeb), wrunQuitReturn d bs = some d' → ¬ d'.released 1 := by
+  refine ⟨_, rfl, by decide, by decide, by decide, by decide, ?_⟩
+  have key : ∀ (bs : List WAct) (t t' : WDeb), t.f = .exited → 1 ∈ ls t.pend → 1 ∉ t.served → 1 ∉ t.shut →
+      wrunQuitReturn t bs = some t' → ¬ t'.released 1 := by
+    intro bs
+    induction bs with
+    | nil =>
+      intro t t' _ _ h3 h4 hr
+      simp [wrunQuitReturn] at hr; subst hr
+      intro h; rcases h with a | a
+      · exact h3 a
+      · exact h4 a
+    | cons b bs ih =>
+      intro t t' h1 h2 h3 h4 hr
+      simp only [wrunQuitReturn] at hr
+      split at hr
+      · rename_i t1 ht1
+        have : t1.f = .exited ∧ 1 ∈ ls t1.pend ∧ 1 ∉ t1.served ∧ 1 ∉ t1.shut := by
+          cases b with
+          | refreshNow =>
+            simp only [wstepQuitReturn, wstep, wstepG, wRefreshNow, Bool.false_and, Bool.false_eq_true, if_false] at ht1
+            injection ht1 with ht1; subst ht1
+            split
+            · rename_i hp; simp [hp, ls] at h2
+            · rename_i l hp
+              simp only [hp, ls, Option.getD_some] at h2
+              exact ⟨h1, by simp [ls, h2], h3, h4⟩
+          | debounce =>
+            simp only [wstepQuitReturn, wstep, wstepG] at ht1
+            split at ht1 <;> (injection ht1 with ht1; subst ht1; exact ⟨h1, h2, h3, h4⟩)
+          | wake x => cases x <;> simp [wstepQuitReturn, wstep, wstepG, h1] at ht1
+          | lock => simp [wstepQuitReturn, wstep, wstepG, h1] at ht1
+          | refreshDone => simp [wstepQuitReturn, wstep, wstepG, h1] at ht1
+          | stop =>
+            simp only [wstepQuitReturn, wstep, wstepG] at ht1; injection ht1 with ht1; subst ht1; exact ⟨h1, h2, h3, h4⟩
+        exact ih t1 t' this.1 this.2.1 this.2.2.1 this.2.2.2 hr
+      · simp at hr
+  intro bs d' hr
+  exact key bs _ d' (by decide) (by decide) (by decide) (by decide) hr
+
+end C17
+
+namespace C17
+/-! ### policyConnPool: concurrent addHost / removeHost / Close callers for one host (Model/Pool.lean, namespace Reg) -/
+
+open Reg C17Reg in
+/-- **no orphan pool**: whatever the interleaving of any number of addHost (UP event, ring refresh, reconnect ticker,
+    control connection), removeHost and policyConnPool.Close callers — each advancing step by step: lock, lookup,
+    create, store, unlock, fill — every hostConnPool object that is not closed and that nobody is committed to closing
+    is the REGISTERED one or the one the caller inside the mutex is about to store: no pool object is ever out of the
+    reach of removeHost / Close -/
+theorem C17_no_orphan_pool (b : Bool) (as : List Act) (s : St) (hr : run (St.init b) as = some s) (i : Nat)
+    (hl : s.live i) : s.reg = some i ∨ s.crit = some (.addCreated i) := by
+  have inv := rinv_run as _ s (rinv_init b) hr
+  obtain ⟨h1, h2, h3⟩ := hl
+  rcases inv.noOrphan i h1 with a | a | a | a
+  · exact Or.inl a
+  · exact Or.inr a
+  · exact absurd a h2
+  · exact absurd a h3
+
+open Reg C17Reg in
+/-- **at most one pool object per host** is ever registered or filling: two pool objects that are both open and not
+    committed to be closed are the same object, for all interleavings -/
+theorem C17_one_pool_per_host (b : Bool) (as : List Act) (s : St) (hr : run (St.init b) as = some s) (i j : Nat)
+    (hi : s.live i) (hj : s.live j) : i = j := by
+  have inv := rinv_run as _ s (rinv_init b) hr
+  rcases C17_no_orphan_pool b as s hr i hi with a | a <;> rcases C17_no_orphan_pool b as s hr j hj with c | c
+  · rw [a] at c; injection c
+  · have := inv.missLock (Or.inr ⟨j, c⟩); rw [a] at this; simp at this
+  · have := inv.missLock (Or.inr ⟨i, a⟩); rw [c] at this; simp at this
+  · rw [a] at c; injection c with c; injection c
+
+/-- non-vacuity: two addHost callers for a host without a pool, interleaved as far as the mutex allows; one pool -/
+example : ∃ s, Reg.run (Reg.St.init false)
+    [.callAdd, .callAdd, .addLock, .addLookup, .addCreate, .addStore, .addUnlock, .addLock, .addLookup, .addUnlock,
+     .fill 0, .fill 0] = some s ∧ s.pools = [false] ∧ s.reg = some 0 ∧ s.filled = [0, 0] := by
+  refine ⟨_, rfl, ?_, ?_, ?_⟩ <;> decide
+
+/-- What the check is there to catch (the family "addHost looks up under the read lock, builds the pool unlocked and
+    stores it under the write lock without looking again"): two callers both miss, both build a pool, the second store
+    overwrites the first — two live pool objects for one host, both filled; pool 0 is not registered, and along EVERY
+    continuation (any further addHost / removeHost / policyConnPool.Close callers, any interleaving) it stays open,
+    unregistered and uncommitted to be closed: out of the reach of removeHost and Close for good. -/
+theorem C17_split_lock_orphans_pool :
+    ∃ s, Reg.runSplit (Reg.St.init false) [.callAdd, .callAdd, .sLookup, .sLookup, .sMake, .sMake, .sStore 0, .sStore 1,
+        .fill 0, .fill 1] = some s ∧
+      s.live 0 ∧ s.live 1 ∧ s.reg = some 1 ∧ s.filled = [0, 1] ∧
+      ∀ (bs : List Reg.Act) (s' : Reg.St), Reg.runSplit s bs = some s' → s'.live 0 ∧ s'.reg ≠ some 0 := by
+  refine ⟨_, rfl, ?_, ?_, by decide, by decide, ?_⟩
+  · exact ⟨by decide, by decide, by decide⟩
+  · exact ⟨by decide, by decide, by decide⟩
+  · intro bs s' hr
+    have h := C17Reg.orphan0_run bs _ s'
+      ⟨by decide, by decide, by decide, by decide, by decide, by decide, by decide, by decide, by decide⟩ hr
+    exact ⟨⟨h.open0, h.crit.2.2.2, h.notDoomed⟩, h.notReg⟩
 
 end C17
